@@ -197,6 +197,20 @@ def rule_guard(ctx):
            'or a later free() on one of them releases a number that a newer buffer owns', fa.node, fa.module)
 
 
+def rule_node_free(ctx):
+    ctx.rule('C17.pair', 'Node.free emits /n_free for its id whenever it is asked to send: the only condition is send_flag, nothing returns before '
+                         '(a node object has no "freed" state of its own: group is None also for basic_new nodes and nodes placed next to them)')
+    f = ctx.repo.func('sc3.synth.node:Node.free')
+    sends = [c for c in U.calls(f.node) if U.method_name(c) == 'send_msg']      # the command name itself is decided in C17.cmds
+    ctx.require(len(sends) == 1, 'C17.pair', f'Node.free: {len(sends)} sends found')
+    sf = f.params[1] if len(f.params) > 1 else 'send_flag'
+    tests = sorted({norm(p_.test) for p_ in U.parent_chain(sends[0]) if isinstance(p_, ast.If)})
+    early = [norm(r)[:40] for r in walk_local(f.node) if isinstance(r, (ast.Return, ast.Raise)) and r.lineno < sends[0].lineno]
+    ctx.ob('C17.pair', f'{f.fq}:sends-whenever-asked', set(tests) <= {sf} and not early,
+           f'/n_free is sent only under {tests}, after possible exits {early}: nodes for which the extra condition fails (basic_new, replace, '
+           f'before/after a grouped-less target) are never freed on the server', f.node, f.module)
+
+
 def rule_pair(ctx):
     ctx.rule('C17.pair', 'constructor and free() use the same allocator attribute; free() builds/sends the free command '
                          'before clearing the id and clears it')
@@ -435,6 +449,7 @@ def run(ctx):
     rule_cmds(ctx)
     rule_guard(ctx)
     rule_pair(ctx)
+    rule_node_free(ctx)
     rule_range(ctx)
     rule_bind(ctx)
     rule_convenience(ctx)
@@ -442,6 +457,9 @@ def run(ctx):
 
 
 MUTANTS = [
+    dict(rule='C17.pair', name='Node.free takes a missing group for already freed (seed C17-i)', file='sc3/synth/node.py',
+         old="        if send_flag:\n            self.server.addr.send_msg('/n_free', self.node_id) # 11\n",
+         new="        if self.group is None:\n            return\n        if send_flag:\n            self.server.addr.send_msg('/n_free', self.node_id) # 11\n"),
     dict(rule='C17.cmds', name='(fix reverted) Buffer.setn spreads lists only', file='sc3/synth/buffer.py',
          old="            if isinstance(values, (list, tuple)):\n                nargs.extend([control, len(values), *values])",
          new="            if isinstance(values, list):\n                nargs.extend([control, len(values), *values])"),
